@@ -39,6 +39,14 @@ example :
     (((Sys.init 10 10).run [.get 2, .write 0 1 7, .release 0, .get 2]).1.held.map (fun bc => bc.2.id))
       = [1, 1] := by decide
 
+/-- No aliasing: after ANY client program, every non-empty register set (identity ≥ 1) has at most
+one owner among the live handles and the pool slots — so `get` never hands out a set that some
+frame still holds, and no set sits in the pool twice. -/
+theorem pool_no_alias (size maxAge : Nat) (ops : List Op) (i : Nat) (hi : 1 ≤ i) :
+    let s := ((Sys.init size maxAge).run ops).1
+    heldCount s i + poolCount s.pool i ≤ 1 :=
+  (noalias_run ops _ (noalias_init size maxAge) i hi).1
+
 /-- Continuation pools (luaContPool / goContPool): after ANY history of get/release operations
 (releases of continuations that are not live — double releases — excluded, as the VM's discipline),
 no continuation is both live and pooled, none is pooled twice, so `get` never hands out a
